@@ -167,10 +167,10 @@ func socksServerSeeds(auth bool) [][]byte {
 func socksServerNegatives(auth bool) [][]byte {
 	ad := s5dom("a", 443)
 	out := [][]byte{
-		cat([]byte{5, 1, 1}, []byte{5, 1, 0}, ad),       // only GSSAPI offered
-		cat([]byte{4, 1, 0}, []byte{5, 1, 0}, ad),       // SOCKS4
-		cat([]byte{5, 1, 0}, []byte{5, 2, 0}, ad),       // BIND
-		cat([]byte{5, 1, 2}, []byte{5, 2, 0}, ad),       // BIND
+		cat([]byte{5, 1, 1}, []byte{5, 1, 0}, ad),        // only GSSAPI offered
+		cat([]byte{4, 1, 0}, []byte{5, 1, 0}, ad),        // SOCKS4
+		cat([]byte{5, 1, 0}, []byte{5, 2, 0}, ad),        // BIND
+		cat([]byte{5, 1, 2}, []byte{5, 2, 0}, ad),        // BIND
 		cat([]byte{5, 1, 0}, []byte{5, 1, 0, 2}, ad[1:]), // bad ATYP
 	}
 	if auth {
@@ -192,7 +192,7 @@ func socksGroups(th bool) []*group {
 	var gs []*group
 	L := 7
 	if th {
-		L = 9
+		L = 8
 	}
 	full := addrSeedsFull()
 	gs = append(gs, &group{
